@@ -181,3 +181,55 @@ func RunWalks(t *testing.T, ad Adapter, root sdk.Context, dump func(sdk.Context)
 		}
 	}
 }
+
+// RunRecord drives the real application with seeded random operations drawn from the alphabet of the
+// graph in VERIF_EDGES (generated with LARGER constants than the model-checking runs and zero
+// budgets, so it holds just the initial state and every operation) and records the real behaviour:
+// one ndjson document per walk {"trace":[{op (with the real result), st}…], "init": projection}.
+// TLC then (a) validates each behaviour against the specification's own next-state relation
+// (<X>Trace.tla) and (b) evaluates the property formulas on it (<X>Prop.tla).
+func RunRecord(t *testing.T, ad Adapter, root sdk.Context) {
+	g, err := Load(os.Getenv("VERIF_EDGES"))
+	if err != nil {
+		t.Fatalf("load edges: %v", err)
+	}
+	out, err := os.Create(os.Getenv("VERIF_TRACES"))
+	if err != nil {
+		t.Fatal(err)
+	}
+	defer out.Close()
+	nWalks, maxLen := envInt("VERIF_WALKS", 10), envInt("VERIF_WALKLEN", 60)
+	seed := uint64(envInt("VERIF_SEED", 1))*0x9E3779B97F4A7C15 + uint64(envInt("VERIF_SHARD", 0))*7919 + 1
+	next := func() uint64 {
+		seed ^= seed >> 12
+		seed ^= seed << 25
+		seed ^= seed >> 27
+		return seed * 2685821657736338717
+	}
+	init := ad.Project(root)
+	accepted := 0
+	for wk := 0; wk < nWalks; wk++ {
+		ctx, _ := root.CacheContext()
+		var path []Step
+		for step := 0; step < maxLen; step++ {
+			// prefer operations the real code accepts: try up to 4 candidates on throw-away branches
+			var op Op
+			for try := 0; try < 4; try++ {
+				op = g.Alphabet[int(next()%uint64(len(g.Alphabet)))]
+				probe, _ := ctx.CacheContext()
+				if _, r := ad.Apply(probe, op); r == "ok" {
+					break
+				}
+			}
+			var res string
+			ctx, res = ad.Apply(ctx, op)
+			if res == "ok" {
+				accepted++
+			}
+			path = append(path, Step{Op: withRes(op, res), St: ad.Project(ctx)})
+		}
+		b, _ := json.Marshal(map[string]any{"trace": path, "why": "recorded", "init": init})
+		out.Write(append(b, '\n'))
+	}
+	fmt.Printf("recorded %d walks of %d steps, %d accepted operations\n", nWalks, maxLen, accepted)
+}
